@@ -161,6 +161,87 @@ def rule_pairing(ctx, rule="C05-pair"):
     ctx.ob(rule, "crate", "no-foreign-unwrap-of-ReserveError", not bad, how="no Result<_, ReserveError> is consumed by unwrap/expect/unwrap_unchecked", detail="allocation failure is turned into a different panic / UB: %s" % bad[:3])
 
 
+def _uses_of(b, l, skip=None):
+    """(bb, stmt-or-terminator) that mention local l as anything but a storage marker, a drop or the
+    destination of the call at block `skip`"""
+    out = []
+    def has(x):
+        if isinstance(x, dict):
+            if x.get("l") == l and "p" in x:
+                return True
+            return any(has(v) for v in x.values())
+        if isinstance(x, list):
+            return any(has(v) for v in x)
+        return False
+    for bb, blk in enumerate(b.blocks):
+        for s in blk["stmts"]:
+            if s["k"] in ("live", "dead"):
+                continue
+            if has(s):
+                out.append((bb, s))
+        t = blk.get("term") or b.term(bb)
+        if t["k"] == "drop":
+            continue
+        tt = dict(t)
+        if bb == skip:
+            tt.pop("dest", None)
+        if has(tt):
+            out.append((bb, t))
+    return out
+
+
+# consuming a Result without looking at which variant it is
+_BLIND = ("core::result::Result::<T, E>::ok", "core::result::Result::<T, E>::is_ok", "core::result::Result::<T, E>::is_err", "core::result::Result::<T, E>::err",
+          "core::result::Result::<T, E>::unwrap_or_default", "core::result::Result::<T, E>::unwrap_or", "core::mem::drop")
+
+
+def _discarded(b, bb, depth=0):
+    """the value produced by the call at bb is never examined"""
+    d = b.term(bb).get("dest")
+    if not d or d.get("p") or d["l"] == 0:
+        return False
+    us = _uses_of(b, d["l"], skip=bb)
+    if not us:
+        return True
+    if depth < 2 and len(us) == 1 and isinstance(us[0][1], dict) and us[0][1].get("k") == "call" and callee_name(us[0][1]) in _BLIND:
+        if callee_name(us[0][1]) == "core::mem::drop":
+            return True
+        return _discarded(b, us[0][0], depth + 1)
+    # moved once into a temporary that is itself unused
+    if depth < 2 and len(us) == 1 and us[0][1].get("k") == "assign" and us[0][1]["rv"]["k"] == "use" and not us[0][1]["lhs"].get("p"):
+        l2 = us[0][1]["lhs"]["l"]
+        return l2 != 0 and not _uses_of(b, l2, skip=None)[1:]
+    return False
+
+
+# pre-sizing through the public API is a hint: every later write goes through the public, checked
+# operations, which reserve for themselves and report (Extend<char> ignores a refused size hint)
+HINT_OK = ("LeanString::try_reserve",)
+
+
+def rule_errors_not_dropped(ctx, rule="C05-errused"):
+    """error discipline: the Result<_, ReserveError> of every storage-layer call is looked at -
+    propagated, matched or returned. `let _ = heap.realloc(..)` turns a refused allocation into Ok."""
+    F = ctx.F
+    n = 0
+    for path, b in F.bodies.items():
+        for bb, t in b.calls():
+            d = t.get("dest")
+            if not d or d.get("p"):
+                continue
+            ty = b.local_ty(d["l"]) or ""
+            if "errors::reserve_error::ReserveError>" not in ty or not ty.startswith("core::result::Result<"):
+                continue
+            if bb not in b.reachable(0):
+                continue
+            n += 1
+            if callee_name(t) in HINT_OK:
+                continue
+            ctx.ob(rule, path, "result-examined:%s" % callee_name(t).rsplit("::", 1)[-1], not _discarded(b, bb), line=t.get("line"), how="Result of %s is propagated / matched" % callee_name(t),
+                   detail="the Result<_, ReserveError> returned by %s is discarded: when the allocator refuses, the caller carries on (and reports Ok) as if the operation had happened" % callee_name(t))
+    ctx.need(rule, "crate", "fallible-calls", n >= 20, "only %d calls returning Result<_, ReserveError>" % n, how="%d fallible storage calls" % n)
+
+
 FORBIDDEN_CONSUMERS = ("core::result::Result::<T, E>::unwrap", "core::result::Result::<T, E>::expect", "core::result::Result::<T, E>::unwrap_unchecked",
                        "core::result::Result::<T, E>::unwrap_or_default")
 
@@ -281,7 +362,9 @@ def rule_wrappers_delegate(ctx, rule="WRAP", only=None):
         ctx.need(rule, fn, "anchor", b is not None and t in F.bodies, "%s / %s not found" % (fn, t))
         if not b:
             continue
-        ctx.ob(rule, fn, "must-pass:" + tgt, must_pass_call(b, {t}), how="every path through %s passes %s" % (w, t),
+        # (a sibling wrapper of the same operation counts: it has this very obligation itself)
+        sib = {"LeanString::" + w2 for w2, t2 in WRAPPERS.items() if t2 == tgt and w2 != w}
+        ctx.ob(rule, fn, "must-pass:" + tgt, must_pass_call(b, {t} | sib), how="every path through %s passes %s" % (w, t),
                detail="%s can return without calling %s: on that path the operation's own guarantees (made exclusive, validated, grown by the rule) are skipped" % (fn, t))
         if w in ("try_reserve", "try_shrink_to", "try_with_capacity", "try_truncate", "try_remove"):
             for st in inlined_sites(b, lambda nm: nm == t):
